@@ -502,6 +502,13 @@ AnyP::Uri::parse(const HttpRequestMethod& method, const SBuf &rawUrl)
             }
         }
 
+        // Bug 3183 sanity check, again: the check above ran before ":port" was cut off,
+        // so an authority that was just ":port" got through with an empty host
+        if (foundHost[0] == '\0') {
+            debugs(23, DBG_IMPORTANT, "SECURITY ALERT: Missing hostname in URL '" << rawUrl << "'. see access.log for details.");
+            return false;
+        }
+
         for (t = foundHost; *t; ++t)
             *t = xtolower(*t);
 
